@@ -64,10 +64,12 @@ class PartHandler(PartFlowController):
         return self._waiting_for_part_since
 
     def set_upstream(self, new_upstream):
-        # Reset waiting time if already waiting for a Part.
+        super().set_upstream(new_upstream)
+        # Reset waiting time if already waiting for a Part; only once
+        # the new upstreams were accepted, a refused call (it raises)
+        # must not change anything.
         if self.waiting_for_part_start_time != None and self._env != None:
             self._set_waiting_for_part(True, True)
-        super().set_upstream(new_upstream)
 
     def offset_next_cycle_time(self, offset):
         '''Offset the cycle time only for the next cycle.
